@@ -784,7 +784,7 @@ impl Property for C42 {
         "initial uncertainties are positive and finite; NaN estimates (numerical breakdown, see C43 known finding) compare equal when both sides are NaN with the same bit pattern",
         "steps of the system clock legitimately move the estimator time; the monotonicity clause is checked for progress_time / measurements",
     ];
-    const QUICK_CASES: u32 = 400_000;
+    const QUICK_CASES: u32 = 1_000_000;
     const THOROUGH_CASES: u32 = 12_000_000;
 
     fn strategy(_tier: Tier) -> BoxedStrategy<Case> {
